@@ -2,6 +2,7 @@
 from lib import cfg
 from rules import common
 
+CRATES = ("agdb",)
 EXPLANATION = (
     "Static analysis: (R08a) GraphImpl::insert_edge validates both endpoints before its first effect (cut on the Ok edge of "
     "each validate_node); (R08b) DbImpl::remove_node cascades: for every edge of node_edges (which collects both incoming "
